@@ -525,6 +525,7 @@ func (ctx Ctx) selectorMethod(f *ast.SelectorExpr, call *ast.CallExpr) coq.Expr 
 	}
 
 	namedTy := deref.(*types.Named)
+	ctx.checkNotSyncValue(f, namedTy)
 	tyName := ctx.qualifiedName(namedTy.Obj())
 	callArgs := append([]ast.Expr{f.X}, args...)
 	fullName := coq.MethodName(tyName, f.Sel.Name)
@@ -919,6 +920,11 @@ func (ctx Ctx) compositeLiteral(e *ast.CompositeLit) coq.Expr {
 
 func (ctx Ctx) structLiteral(info structTypeInfo,
 	e *ast.CompositeLit) coq.StructLiteral {
+	if t, ok := ctx.typeOf(e).(*types.Pointer); ok {
+		ctx.checkNotSyncValue(e, t.Elem())
+	} else {
+		ctx.checkNotSyncValue(e, ctx.typeOf(e))
+	}
 	ctx.dep.addDep(info.name)
 	lit := coq.NewStructLiteral(info.name)
 	for _, el := range e.Elts {
